@@ -351,12 +351,14 @@ def run(tier, seed):
         return report(key, what, replay_obj=replay_obj, replay_path=replay_path)
     execs = [[strip(e) for e in x] for x in tracecheck.split_executions(merged)]
     ck.violation = once
-    n = tracecheck.validate(ck, PID, "tlc", "RabinKeyTrace", "RabinKeyTrace.cfg", execs, classify=classify, chunks=min(nproc, 8))
+    texecs = [[strip(e) for e in x] for tp, _ in tops for x in tracecheck.split_executions(tp)]
+    with cf.ThreadPoolExecutor(max_workers=2) as ex:
+        fn = ex.submit(tracecheck.validate, ck, PID, "tlc", "RabinKeyTrace", "RabinKeyTrace.cfg", execs, classify, min(nproc, 6))
+        if texecs:
+            ex.submit(tracecheck.validate, ck, PID, "top", "RabinKeyTrace", "RabinKeyTrace.cfg", texecs, classify, len(texecs)).result()
+        n = fn.result()
     if n == 0 and ck.violations == 0:
         raise vlib.Infra("no trace validated")
-    texecs = [[strip(e) for e in x] for tp, _ in tops for x in tracecheck.split_executions(tp)]
-    if texecs:
-        tracecheck.validate(ck, PID, "top", "RabinKeyTrace", "RabinKeyTrace.cfg", texecs, classify=classify, chunks=len(texecs))
     ck.violation = report
     # the harness's own prover (cases "proof.*") is trusted only as far as it reproduces the proof of generate()
     for e in events:
